@@ -82,14 +82,14 @@ claim("C18", "capability reachability over the VTA call graph with interpreter d
       "on a path some caller can take; (S18e) the tuple attribute `safe` (//std.safe) is built only while SafeStdScopeTuple assembles the safe library. Four genuine routes exist today and are listed as known findings. Leaks through a dependency's "
       "internals are not decided; the call graph over-approximates, so the claim is level other.", NOTE, "DESIGN.md §3 C18")
 
-claim("C10", "grammar/table agreement, inhabited-type analysis of unchecked assertions, TS-SCCP definite-panic stubs, recover-boundary reachability from goroutine roots, recover-to-error store rule, condition-variable wake-up rule",
+claim("C10", "grammar/table agreement, inhabited-type analysis of unchecked assertions, TS-SCCP definite-panic stubs, recover-boundary reachability from goroutine roots, recover-to-error store rule, dimension analysis of text positions (bytes vs characters), condition-variable wake-up rule",
       "Absence of panics over all programs is not decidable here (about 160 explicit panics, 400 unchecked assertions); the check decides five "
       "structural necessary conditions exactly: (R10a) no grammar token lacks a table entry at an unguarded lookup; (R10b) no unchecked assertion to "
       "a type that no value ever has; (R10c) no interface method of a value type is an unconditional panic (24 known stubs on function values); "
       "(R10e) every goroutine root that gRPC or `go` hands us crosses a recover before compiling/evaluating client text; (R10f) no lost wake-up on "
       "the import cache's condition variable; plus the engine/import-cache liveness rules shared with C16/C17 (R17a self-communication, R17d map-miss "
       "dereference, R17e recover on the actor and around value-taking client callbacks, R17h recovered panic stored into the named error result, R19h deferred stores keep the first error, R16d "
-      "re-entrant wait). Index-out-of-range, nil dereference, recursion depth and termination are not decided.", NOTE, "DESIGN.md §3 C10")
+      "re-entrant wait); (R10g) byte positions and character positions of text are never mixed in offset arithmetic, slicing or indexing (dimension analysis). Index-out-of-range in general, nil dereference, recursion depth and termination are not decided.", NOTE, "DESIGN.md §3 C10")
 
 claim("C15", "dominance of recorders over readers, flag-fixed reachability of host effects along all call paths from Compile, sibling agreement of archive-location derivations",
       "Decides structural necessary conditions of bundle = sources: (R15a) every import read is either bundle-run-only or dominated by its recorder "
